@@ -36,6 +36,17 @@ theorem converted_paths_sub (r : Nat) (q : Path) (o : OldProp) :
   · exact Or.inl h
   all_goals (split at h <;> simp_all)
 
+/-- everything after the main property sits at a `<name>.<extra>` path -/
+theorem converted_tail_paths (r : Nat) (q : Path) (o : OldProp) :
+    ∀ e ∈ (converted r q o).tail, e.1 ∈ extras q := by
+  intro e he
+  rw [converted_eq] at he
+  simp only [List.append_assoc, List.cons_append, List.nil_append, List.tail_cons, uncExtra, strExtraOf,
+    List.mem_append] at he
+  simp only [extras, suffixes, List.map_cons, List.map_nil, List.mem_cons, List.not_mem_nil, or_false]
+  rcases he with h | h | h | h | h
+  all_goals (split at h <;> simp_all)
+
 theorem view_mainOf (r : Nat) (o : OldProp) : (PObj.new (mainOf r o)).view = (PObj.old o).view := by
   simp only [PObj.view, mainOf, freshProp, PropView.mk.injEq, true_and]
   constructor <;> (unfold nonEmpty; cases o.definition <;> cases o.unit <;> simp [Option.filter] <;> split <;> simp_all)
